@@ -31,6 +31,7 @@ const repoModule = "github.com/jamf/regatta"
 
 type Gen struct {
 	prog        *ssa.Program
+	funcVars    map[*ssa.Global]*ssa.Function // package-level function variables that are never reassigned
 	fset        *token.FileSet
 	pkgs        []*packages.Package
 	ssaPkgs     []*ssa.Package
